@@ -568,3 +568,7 @@ Proof.
   intros Hcs Hds E. apply bytes_cmp_eq. rewrite <- lex_encode_scalars by assumption.
   now apply bytes_cmp_eq.
 Qed.
+
+(* the proof invariant holds in every reachable state (used by the machine-level Examples) *)
+Lemma run_inv ops : forallb op_ok ops = true -> inv (fst (run ops)).
+Proof. intros H. exact (proj1 (inv_run_from ops init inv_init H)). Qed.
